@@ -281,22 +281,30 @@ class Evaluate(Contract):
     eff = explicit if explicit is not None else scope
     if explicit is not None and scope is not None:
       eff = explicit & scope
-    # a program that needs ASSIGN and CALL; refused iff eff lacks one of them
-    code = 'x = print\nx'
-    sentinel = []
-    def run():
-      return pg.coding.evaluate(code, permission=explicit, global_vars=dict(mark=sentinel.append))
-    try:
-      if scope is not None:
-        with pg.coding.permission(scope):
+    # one single-construct program per permission flag; a program whose flag is
+    # missing from the effective permission must be refused
+    programs = {
+        P.ASSIGN: 'x = 1', P.CONDITION: 'if True:\n  pass', P.LOOP: 'for i in ():\n  pass',
+        P.CALL: 'len(())', P.EXCEPTION: 'try:\n  pass\nexcept Exception:\n  pass',
+        P.CLASS_DEFINITION: 'class A:\n  pass', P.FUNCTION_DEFINITION: 'def f():\n  pass',
+        P.IMPORT: 'import os'}
+    if eff is None:
+      return dict(outcome='not-reproduced', detail='no effective permission: nothing is refused')
+    executed = []
+    for flag, code in programs.items():
+      if eff & flag:
+        continue
+      def run():
+        return pg.coding.evaluate(code, permission=explicit)
+      try:
+        if scope is not None:
+          with pg.coding.permission(scope):
+            run()
+        else:
           run()
-      else:
-        run()
-      refused = False
-    except pg.coding.CodeError:
-      refused = True
-    should_refuse = eff is not None and not (eff & P.ASSIGN)
-    bad = should_refuse and not refused
-    return dict(outcome='reproduced' if bad else 'not-reproduced',
-                detail=f'evaluate({code!r}, permission={explicit!r}) under scope {scope!r}: '
-                       f'{"refused" if refused else "executed"}; effective permission per statement = {eff!r}')
+        executed.append((flag, code))
+      except pg.coding.CodeError:
+        pass
+    return dict(outcome='reproduced' if executed else 'not-reproduced',
+                detail=f'permission={explicit!r} under scope {scope!r}: effective permission per statement = {eff!r}; '
+                       f'programs executed although their permission is not granted: {executed!r}')
